@@ -436,6 +436,32 @@ def gen_schema(rng, entry=None, variant=None, lines="thorough", bad=None):
                 packages=packages, lines=lines, note="bad" if bad else None)
 
 
+class FalsyFile:
+    """An open file handed to the loader through a thin wrapper that is
+    false in a boolean context (e.g. a sized view of what is left to
+    read); everything else is the file's."""
+
+    def __init__(self, f):
+        self._f = f
+
+    def __getattr__(self, name):
+        return getattr(self._f, name)
+
+    def __iter__(self):
+        return iter(self._f)
+
+    def __bool__(self):
+        return False
+
+
+class FalsyStringIO(io.StringIO):
+    def __bool__(self):
+        return False
+
+    def __len__(self):
+        return 0
+
+
 CONFIG_ENTRIES = ["path", "url", "fileobj", "stringio", "loader-url",
                   "loader-file"]
 SCHEMA_ENTRIES = ["path", "url", "fileobj", "fileobj-rb", "stringio",
@@ -786,11 +812,14 @@ class Subject:
     def _open(self, p, mode="r"):
         f = open(p, mode) if "b" in mode else open(p, mode, encoding="utf-8")
         self._opened.append(f)
-        return f
+        return FalsyFile(f)
 
     def _sio(self, p):
         with open(p, encoding="utf-8") as f:
-            s = io.StringIO(f.read())
+            # a file-like object may well be false in a boolean context
+            # (a sized container of the lines left, a proxy ...): it is
+            # closed all the same
+            s = FalsyStringIO(f.read())
         self._opened.append(s)
         return s
 
